@@ -151,6 +151,9 @@ def build_expander(features=None):
     return common.bin_path("expander")
 
 
+K_C03_ALIAS = "C03:no_int_result-under-trait-level-result-alias-keeps-raw-Result"
+
+
 def c03(run):
     """C03: (1) structural oracle over all expansions, (2) the compiler's own FFI lints on
     expansions written out as plain source + probes, (3) repr audit of the runtime crate."""
@@ -182,7 +185,7 @@ def c03(run):
     replay_ids = None
     if run.replay:
         replay_ids = set(json.load(open(run.replay)).get("case", {}).get("ids", []))
-    chosen = [d for k, d in enumerate(defs) if d.get("lint", True) and ((d["id"][0] in "rg") or k % step == 0)]
+    chosen = [d for k, d in enumerate(defs) if d.get("lint", True) and ((d["id"][0] in "rga") or k % step == 0)]
     if replay_ids is not None:
         chosen = [d for d in defs if d["id"] in replay_ids or any(u in replay_ids for u in d.get("uses", []))]
         # groups need their traits
@@ -190,6 +193,7 @@ def c03(run):
         chosen += [d for d in defs if d["id"] in need and d not in chosen]
     chunk_size = 400
     lint_evals, lint_nt, lint_viol, samples = 0, 0, [], []
+    lint_known = {}
     crate = os.path.join(common.WORK, "c03lint")
     for c0 in range(0, len(chosen), chunk_size):
         chunk = chosen[c0:c0 + chunk_size]
@@ -237,7 +241,12 @@ def c03(run):
         for mod, errs in by_mod.items():
             d = by_id.get(mod)
             what = "; ".join(f"{c}: {msg} [{txt}]" for (c, msg, txt) in errs[:3])
-            if mod == "rt_types":
+            if (d or {}).get("label") == "trait-level-result-alias/no_int_result":
+                if K_C03_ALIAS in run.known["known"]:
+                    lint_known[K_C03_ALIAS] = lint_known.get(K_C03_ALIAS, 0) + 1
+                else:
+                    lint_viol.append({"sub": "lint", "key": K_C03_ALIAS, "what": f"definition {mod}: a method marked #[no_int_result] in a trait with a trait-level #[int_result(Alias)] keeps a raw Rust Result in its extern \"C\" vtable entry instead of CResult: {what}", "case": {"ids": [mod], "label": d.get("label"), "src": d.get("src")}})
+            elif mod == "rt_types":
                 lint_viol.append({"sub": "lint", "key": "C03:lint:runtime-type", "what": f"a wrapper type shipped by the runtime crate is not FFI-safe by the compiler's rules: {what}", "case": {"ids": ["rt_types"]}})
             else:
                 lint_viol.append({"sub": "lint", "key": "C03:lint:" + errs[0][0], "what": f"definition {mod} ({(d or {}).get('label')}): {what}", "case": {"ids": [mod], "label": (d or {}).get("label"), "src": (d or {}).get("src")}})
@@ -247,7 +256,7 @@ def c03(run):
         if lint_viol:
             break
     run.add_result({"_label": "lint", "evaluations": lint_evals, "distinct_nontrivial": lint_nt, "samples": samples[:4], "violations": lint_viol[:3],
-                    "classes": {"lint:definitions": lint_evals}, "known_seen": {},
+                    "classes": {"lint:definitions": lint_evals}, "known_seen": lint_known,
                     "rule": "the same definitions, expanded by /repo's generator and written out as ordinary source modules of a crate with #![deny(improper_ctypes, improper_ctypes_definitions)], each followed by extern \"C\" probe declarations over the opaque Box/ArcBox/Mut/Ref/ArcRef object types (which makes the lint walk the instantiated vtable, container and RetTmp structs), plus probes over every wrapper type of the runtime crate; oracle = rustc's verdict. quick: every 13th enumerated definition + all random ones; thorough: all",
                     "assumptions": ["the lints of the installed stable rustc are the yardstick (the property says: by the compiler's own rules)"]})
     # (3) repr audit of the runtime crate
@@ -400,7 +409,7 @@ def hdr_check(run):
         for k, v in info["known_seen"].items():
             if k.startswith(prop):
                 known_seen[k] = known_seen.get(k, 0) + v
-        nt = info.get("c17_nontrivial") if prop == "C17" else (info.get("two_ctx") or info.get("look_alike"))
+        nt = info.get("c17_nontrivial") if prop == "C17" else (info.get("two_ctx") or info.get("look_alike") or info.get("sized_rettmp") or info.get("suffix_names"))
         if nt:
             nontrivial.add(info["seed"])
             if len(samples) < 3:
@@ -409,7 +418,7 @@ def hdr_check(run):
             if v["prop"] == prop and not any(x["key"] == v["key"] for x in viol):
                 viol.append({"sub": "headers", "key": v["key"], "what": v["what"], "case": {"seed": info["seed"], "mode": info.get("mode", "C"), "insts": info["insts"], "groups": info["groups"], "config": info["config"]}})
     rule17 = "API models (1-4 traits with 1-4 methods of 0-4 scalar/struct/slice/pointer/callback arguments, by-ref/by-mut/consuming receivers, scalar/struct/slice/self-container returns, deliberate method-name clashes; 0-2 groups; Box/Mut/Ref containers; Arc and no context; optional default container/context and function prefix) are rendered in cbindgen's C output shape (concrete item shapes as in examples/pregen-headers) and, every third model, in its C++ template shape, post-processed by /repo's cglue-bindgen behind a stub cbindgen, and EXECUTED: a generated C (resp. C++) driver builds every object with mock vtables/box/arc functions and calls every wrapper the tool's naming scheme offers for every entry (C++: the member function; the destructor as drop helper) with distinctive arguments; expected: exactly that slot of that object's vtable, the object's container, arguments unchanged and in order, scripted return value back, and for consuming entries / drop helpers instance and context released once with a context clone held across the call. Non-trivial = a vtable with entries of different arity, or a group with a method-name clash, or a consuming entry with a context"
-    rule18 = "the same header space plus user declarations interleaved at generated positions (some named like CGlue patterns: ...Vtbl, ...RetTmp..., ...Container..., Context..., CGlueX): (1) gcc and clang -std=c99 (g++ and clang++ -std=c++11 for C++ models) -fsyntax-only accept the output on its own; (2) the tool run 5 times in fresh processes gives byte-identical output, also into an output path that already holds a longer file; (3) every foreign declaration occurs verbatim and in the original order; (4) argv contract with a recording stub cbindgen (and stub rustup for +nightly): arguments after `--` minus the output option reach cbindgen unchanged and in order, arguments before `--` do not, the processed header lands in the output path or on stdout, -c selects the config. Non-trivial = two context kinds in one header or a look-alike foreign declaration"
+    rule18 = "the same header space plus user declarations interleaved at generated positions (some named like CGlue patterns: ...Vtbl, ...RetTmp..., ...Container..., Context..., CGlueX): (1) gcc and clang -std=c99 (g++ and clang++ -std=c++11 for C++ models) -fsyntax-only accept the output on its own; (2) the tool run 5 times in fresh processes gives byte-identical output, also into an output path that already holds a longer file; (3) every foreign declaration occurs verbatim and in the original order; (4) argv contract with a recording stub cbindgen (and stub rustup for +nightly): arguments after `--` minus the output option reach cbindgen unchanged and in order, arguments before `--` do not, the processed header lands in the output path or on stdout, -c selects the config. Non-trivial = two context kinds in one header, a look-alike foreign declaration, a trait with sized temporary-return storage, or one trait name being a suffix of another"
     res_main = {"_label": "headers", "evaluations": evals, "distinct_nontrivial": len(nontrivial), "samples": samples, "violations": viol, "known_seen": known_seen,
                 "classes": {"headers:models": evals, "headers:models-c++": n_cpp, "headers:vtable-entries-executed": entries}, "rule": rule17 if prop == "C17" else rule18,
                 "assumptions": ["cbindgen is not installed: the raw headers are an emulation restricted to concrete item shapes that occur verbatim in examples/pregen-headers/bindings.h (C) and to the template shapes codegen/cpp.rs matches (C++)"]}
